@@ -560,15 +560,15 @@ macro_rules! lookup_noncontiguous_counts {
         /// ($NSYM here) that differs from the number of probabilities (3); an accepted model answers
         /// every quantile in bounds.
         #[cfg_attr(kani, kani::proof)]
-        #[cfg_attr(kani, kani::unwind(20))]
+        #[cfg_attr(kani, kani::unwind(12))]
         pub fn $name() {
-            const P: usize = 4;
+            const P: usize = 3;
             let probs: [f32; 3] = [1.0, 1.0, 2.0];
             let syms: [u16; 4] = [10, 20, 30, 40];
             let d = NonContiguousLookupDecoderModel::<u16, u8, Vec<(u8, u16)>, Box<[u8]>, P>::from_symbols_and_floating_point_probabilities_fast(syms[..$NSYM].iter().copied(), &probs, None);
             assert!(d.is_ok() == ($NSYM == 3), "C19: non-contiguous lookup model accepted a symbol count that differs from the number of probabilities");
             if let Ok(d) = d {
-                let q: u8 = any(); assume(q < 16);
+                let q: u8 = any(); assume(q < 8);
                 let (_s, c, p) = d.quantile_function(q);
                 assert!(c <= q && (q as u32) < c as u32 + p.get() as u32, "C03/C10: lookup model returned an interval that does not hold the quantile");
             }
